@@ -183,13 +183,26 @@ def run(ctx, anchors=None):
     counter = A["counter"]
 
     # ---- R04.2 pairing
-    def hist_ops(func, method):
+    def hist_ops(func, method, depth=0):
+        """(history vector, node) for every X_history.method() of func; an operation performed unconditionally by a
+        same-file helper that is handed the session (env) as its first argument is attributed to the call site"""
         out = []
         for n in func.nodes():
             if n["k"] == "mcall" and n.get("n") == method:
                 for f in efields(func, n.get("obj")):
                     if f[0].endswith("_history"):
                         out.append((f[0], n))
+            elif astq.is_call(n) and n.get("cid") and n.get("cid") != opstep.id and depth < 2 and n.get("args"):
+                passes_env = any(env_fields(norm_root(func, p_), {("parm", 0)}) == () for p_ in astq.paths(n["args"][0], astq.aliases(func))) if n["args"][0] is not None else False
+                if not passes_env:
+                    continue
+                for g in prog.resolve(n["cid"]):
+                    if g.body is None or g.id == func.id or g.file != func.file or not g.params:
+                        continue
+                    gcfg = g.cfg()
+                    for (h, m) in hist_ops(g, method, depth + 1):
+                        if gcfg.must_pass_from_block(gcfg.entry, [m]):
+                            out.append((h, n))
         return out
     pushes = hist_ops(stepper, "push_back")
     pops_fail = hist_ops(stepper, "pop_back")
